@@ -595,7 +595,7 @@ pub fn gen_cfg(rng: &mut Rng) -> UCfg {
             max: rng.below(4),
             init: 0,
             rt: rng.chance(60),
-            tmo: *rng.pick(&[Tmo::None, Tmo::Zero, Tmo::Finite]),
+            tmo: *rng.pick(&[Tmo::None, Tmo::Zero, Tmo::Finite, Tmo::Finite, Tmo::Huge]),
             ctor: "cfg".into(),
         },
         _ => UCfg {
@@ -625,7 +625,7 @@ pub fn gen_trace(seed: u64, profile: &str) -> UTrace {
     let p_quiesce = if profile == "ustatus" { 8 } else { 2 };
     let n_act = 30 + rng.below(50);
     let mut started = 0;
-    let tm = [Tmo::None, Tmo::Zero, Tmo::Finite];
+    let tm = [Tmo::None, Tmo::None, Tmo::Zero, Tmo::Zero, Tmo::Finite, Tmo::Finite, Tmo::Huge];
     for _ in 0..n_act {
         if rng.chance(p_quiesce) {
             // quiescent point: run whatever can run, then status at rest
